@@ -140,8 +140,8 @@ PLANS = {
     # the commit did not touch - what the WAL says about such a page matters only when the hash-table writes are lost)
     "C04": dict(quick=dict(behs=8, depth=20, mode="both", budget=6, nested=2, stride=1, fs=[1, 3], mc_crashes=2, mutants=True, max_ops=4, decode=True,
                            growth=2, growth_fs=[10, 12, 15], growth_embs=["deep(12)", "deep(18)", "deep(13)", "deep(12):z"]),
-                thorough=dict(behs=36, depth=28, mode="both", budget=10, nested=2, stride=1, fs=[1, 3, 25], mc_crashes=3, mutants=True, decode=True,
-                              growth=12, growth_fs=[8, 10, 12, 15, 19, 21], growth_embs=["deep(12)", "deep(18)", "deep(13)", "deep(12):z", "deep(24)"])),
+                thorough=dict(behs=16, depth=24, mode="both", budget=8, nested=2, stride=1, fs=[1, 3, 25], mc_crashes=3, mutants=True, decode=True, max_ops=6,
+                              growth=4, growth_fs=[8, 10, 12, 15, 19, 21], growth_embs=["deep(12)", "deep(18)", "deep(13)", "deep(12):z", "deep(24)"])),
     "C17": dict(quick=dict(behs=60, depth=24, mode="none", budget=0, nested=0, stride=1, fs=[1, 3, 25, 60], mc_crashes=1, mutants=True, flsweep=10),
                 thorough=dict(behs=600, depth=30, mode="none", budget=0, nested=0, stride=1, fs=[1, 3, 25, 60, 400], mc_crashes=2, mutants=True, flsweep=40)),
     # C16's crash leg: recovered images of histories whose merkle pages cross the elision threshold while parts of
